@@ -124,8 +124,15 @@ def tensor(
     array = np.array(value, dtype=numpy_dtype)
 
     # Handle string tensors by encoding them
-    if isinstance(value, str) or (
-        isinstance(value, Sequence) and value and all(isinstance(elem, str) for elem in value)
+    if (
+        isinstance(value, str)
+        or (
+            isinstance(value, Sequence)
+            and value
+            and all(isinstance(elem, str) for elem in value)
+        )
+        # Nested sequences of strings (rank >= 2) are turned into a unicode array by numpy as well
+        or (numpy_dtype is None and array.dtype.kind == "U")
     ):
         # np,strings was added in numpy 2.0, so mypy's stubs may not include it yet.
         array = np.strings.encode(array, encoding="utf-8")  # type: ignore[attr-defined]
